@@ -25,8 +25,11 @@ _COUNTER = [0]
 ASSUMPTIONS = [
     'bounded: the port-tree families and instance universes listed under coverage.families (exhaustive inside them); '
     'thorough adds seeded hypothesis-generated larger trees evaluated by the same TLA+ operators',
-    'value domain: ints {0,-1,7}, strings {"s","d",""}, nested dicts over keys z/u/w; valid_type in {None,int,str}; validators: '
-    'reject a negative int (port) / a mapping with a negative direct value (namespace); namespace `default` is not used',
+    'value domain: ints {0,-1,7}, strings {"s","d",""}, None (given for a leaf port, for an undeclared key, inside a dynamic mapping, '
+    'as a plain or callable default; given for a declared namespace only when ports_model.NONE_FOR_NAMESPACE is on), nested dicts '
+    'over keys z/u/w; valid_type in {None,int,str}; validators: reject a negative int (port) / a mapping with a negative direct value '
+    '(namespace); namespace `default` is not used; specs that cannot be declared (a plain default its own port rejects) are not part '
+    'of the universe (Ports!Declarable)',
     'TLC invariants transfer to the implementation only through the instance-by-instance comparison of the operational model '
     'with the real classes (constructor outcome, inputs, read-only levels, raw_inputs, caller dict; out() outcome, outputs after '
     'every call, listener arguments, future, is_successful, result)',
@@ -112,6 +115,12 @@ def hypothesis_family(kind, seed, n_trees, per_tree):
     ints = [0, -1, 7]
     leafvals = [0, -1, 7, 's', 'd', {}, {'u': 0}, {'u': 's'}]
     extravals = [0, 's', -1, {}, {'u': 0}, {'u': 's'}, {'u': {'w': 's'}}, {'u': {'w': 0}, 'w': 0}]
+    nsvals = ['absent', 'absent', 'dict', 'dict', 'dict', 'dict', 0, 's', '']
+    if kind == 'input':          # None as a supplied value (C11)
+        leafvals = leafvals + [None, None]
+        extravals = extravals + [None, {'u': None}, {'u': {'w': None}, 'w': 0}]
+        if ports_model.NONE_FOR_NAMESPACE:
+            nsvals = nsvals + [None]
 
     def gen_leaf(draw):
         vt = draw(st.sampled_from(['none', 'int', 'str']))
@@ -125,7 +134,9 @@ def hypothesis_family(kind, seed, n_trees, per_tree):
             elif choice == 'call':
                 leaf['def'] = ('call', good)
             elif choice == 'callbad':
-                leaf['def'] = ('call', draw(st.sampled_from([-1, 's', 7, {}])))
+                leaf['def'] = ('call', draw(st.sampled_from([-1, 's', 7, {}, None])))
+            if choice == 'plain' and vt == 'none' and draw(st.integers(0, 3)) == 0:
+                leaf['def'] = ('plain', None)          # default=None: declarable for an untyped port only
         return leaf
 
     def gen_ns(draw, depth, budget):
@@ -151,7 +162,7 @@ def hypothesis_family(kind, seed, n_trees, per_tree):
                 if not isinstance(c, str) or c != 'absent':
                     d[name] = c
             else:
-                c = draw(st.sampled_from(['absent', 'absent', 'dict', 'dict', 'dict', 'dict', 0, 's', '']))
+                c = draw(st.sampled_from(nsvals))
                 if c == 'dict':
                     d[name] = gen_input(draw, p)
                 elif not isinstance(c, str) or c != 'absent':
@@ -200,9 +211,10 @@ def hypothesis_family(kind, seed, n_trees, per_tree):
         items.append(x)
 
     collect()
-    what = ('%d hypothesis-generated %s trees (seed %d; <= 10 ports, depth <= 4, <= 3 ports per namespace, all attribute combinations), '
+    what = ('%d hypothesis-generated %s trees (seed %d; <= 10 ports, depth <= 4, <= 3 ports per namespace, all attribute combinations%s), '
             '%d tree-guided %s each; expectations computed by TLC evaluating the same operators on the recorded instances'
-            % (len(items), kind, seed, per_tree, 'inputs' if kind == 'input' else 'call sequences (<= 4 calls, any split)'))
+            % (len(items), kind, seed, '; None among the supplied values and the defaults' if kind == 'input' else '', per_tree,
+               'inputs' if kind == 'input' else 'call sequences (<= 4 calls, any split)'))
     return ports_model.explicit_family('hypothesis', what, kind, items)
 
 
